@@ -112,6 +112,15 @@ def run(ck: Check) -> None:
         newest = versions[-1][1]
         vals = [sg.gen_value(newest.top, rng, m) for m in ("random", "max", "random")][: ck.n(2, 3)]
         chains.append((versions, vals))
+    if not getattr(ck, "replay_file", None):
+        import boundary_cases
+        for schemas, steps, origin in boundary_cases.evolution_chains():
+            rng = random.Random(f"C05:{ck.seed}:{origin}")
+            versions = [(None, sc, [origin + ": " + st for st in (steps[:k] if k else [])][-1:] if k else [])
+                        for k, sc in enumerate(schemas)]
+            newest = schemas[-1]
+            vals = [sg.gen_value(newest.top, rng, m) for m in ("random", "max")]
+            chains.insert(0, (versions, vals))
 
     # phase 1: encode with the newest version
     jobs = [pyside.make_job(ck, i, vs[-1][1], vals) for i, (vs, vals) in enumerate(chains)]
@@ -127,7 +136,8 @@ def run(ck: Check) -> None:
             continue
         encs = [rr["enc"] for rr in r["runs"]]
         for k, (g1, s1, _) in enumerate(versions[:-1]):
-            j = pyside.make_job(ck, 100000 + len(jobs2), s1, [], decode_bytes=encs)
+            own = [sg.gen_value(s1.top, random.Random(f"C05:{ck.seed}:own:{i}:{k}"), "random")]
+            j = pyside.make_job(ck, 100000 + len(jobs2), s1, own, decode_bytes=encs)
             jobs2.append(j)
             index.append((i, k))
     res_old = run_workers("run_py.py", jobs2, chunk=max(4, len(jobs2) // 32))
